@@ -159,11 +159,11 @@ def c13(tier, seed):
         batches.append(Batch(bk + "-nofault", exe_b, "C13", "nofault", seed + 2, ocnt, osecs, W).run())
         batches.append(Batch(bk + "-fault", exe_b, "C13", "fault", seed + 2, ocnt, osecs, W).run())
     build_info["other_backends"] = REAL_STUB["idn"] + REAL_STUB["idnkit"]
-    if tier == "thorough":
-        exe2, _ = build.build_hist("idn2", extra=True)
-        build_info["extra_variant"] = "-DEAV_EXTRA build also run (lpart/domain strings compared and ledgered)"
-        batches.append(Batch("extra-nofault", exe2, "C13", "nofault", seed + 1, 10**8, 120, W, samples=False).run())
-        batches.append(Batch("extra-fault", exe2, "C13", "fault", seed + 1, 10**8, 120, W, samples=False).run())
+    exe2, _ = build.build_hist("idn2", extra=True)
+    build_info["extra_variant"] = "-DEAV_EXTRA build also run (lpart/domain strings compared and ledgered)"
+    xq = tier == "quick"
+    batches.append(Batch("extra-nofault", exe2, "C13", "nofault", seed + 1, 3000 if xq else 10**8, 60 if xq else 120, W, samples=False).run())
+    batches.append(Batch("extra-fault", exe2, "C13", "fault", seed + 1, 3000 if xq else 10**8, 60 if xq else 120, W, samples=False).run())
     violations, known, nondet = handle_candidates("C13", batches)
     rule = ("plan = seeded history of 1-200 ops {SET_RFC, SET_TLD, SET_ALLOW, SETUP, IS_EMAIL, ERRSTR, READ_RESULT, FREE_INIT} over 1-3 eav_t "
             "objects and a per-plan address pool (swarm: op mix, pool size, fault rate drawn per plan), plus the complete enumeration of all op sequences up to length 4 (thorough: 5) "
@@ -193,10 +193,9 @@ def c19(tier, seed):
     batches = [Batch("nofault", exe, "C19", "nofault", seed, 4000 if q else 10**8, 60, W, samples=True).run(),
                Batch("single", exe, "C19", "single", seed, nbase * per_base, 0, W, samples=True).run(),
                Batch("multi", exe, "C19", "multi", seed, 8000 if q else 10**8, secs, W, samples=True).run()]
-    if tier == "thorough":
-        exe2, _ = build.build_hist("idn2", extra=True)
-        batches.append(Batch("extra-single", exe2, "C19", "single", seed + 1, 4 * per_base, 0, W).run())
-        batches.append(Batch("extra-multi", exe2, "C19", "multi", seed + 1, 10**8, 60, W).run())
+    exe2, _ = build.build_hist("idn2", extra=True)
+    batches.append(Batch("extra-single", exe2, "C19", "single", seed + 1, (1 if q else 4) * per_base, 0, W).run())
+    batches.append(Batch("extra-multi", exe2, "C19", "multi", seed + 1, 3000 if q else 10**8, 60, W).run())
     violations, known, nondet = handle_candidates("C19", batches)
     single = batches[1]
     rule = ("plan = run of 1-50 validations in mode 6531 (eav_is_email, is_6531_email, is_utf8_domain; tld_check/allow/mode toggles in between) with "
